@@ -40,8 +40,11 @@ def gen_sections(r, kind):
   secs = []
   for i in range(r.randint(1, 6)):
     body = []
-    if r.random() < 0.88:
+    c = r.random()
+    if c < 0.84:
       body.append('pattern = %s' % r.choice(PATS))
+    elif c < 0.90:
+      body.append(r.choice(['pattern =', 'pattern = ', 'pattern:']))     # key present, value empty: the section lacks a pattern
     if kind == 'schema':
       if r.random() < 0.9:
         body.append('%s = %s' % (r.choice(['retentions', 'RETENTIONS', 'retentions']), r.choice(RETS)))
